@@ -237,6 +237,8 @@ theorem buildGate_known {cfg : Config} {mode : KeyMode} {ctx : Ctx} {recV : BSx 
   split at h
   · simp [throw_eq] at h
   · rename_i name gargs
+    obtain ⟨_, _, h⟩ := bind_ok h
+    unfold buildGateMemo at h
     by_cases hoff : mode = .off
     · simp only [hoff, if_true] at h
       obtain ⟨p, hb, h1⟩ := bind_ok h
